@@ -108,6 +108,7 @@ type HarnessResult struct {
 	Stubs         map[string]bool
 	Wall          time.Duration
 	UnwindFail    map[string]bool
+	Undecided     []string // claims=none harnesses: obligations left undecided (not claimed)
 	ExpectedIDs   []string
 	ExpectedReach []string
 	Samples       []map[string]interface{}
